@@ -41,9 +41,15 @@ def main() -> int:
     if a.replay:
         with open(a.replay) as f:
             payload = json.load(f)
-        rep = mod.replay(ctx, payload)
+        try:
+            rep = mod.replay(ctx, payload)
+        except Exception:
+            # the re-run broke off (a record of another shape, a harness error, an oracle that cannot digest what the
+            # library produced): what was observed until then stands; exit 1 is reserved for "the failure reproduces"
+            rep = framework.replay_result(ctx, replay_error=traceback.format_exc()[-3000:])
+        rep = framework.judge_replay(ctx, getattr(mod, "CLASSIFIERS", {}), payload, rep)
         print(json.dumps(rep, indent=1, default=str))
-        return 1 if rep.get("fails") else 0
+        return 1 if rep.get("fails") else (2 if "replay_error" in rep else 0)
 
     proof = info.get("props", {})
     problems: list[str] = []
@@ -96,13 +102,14 @@ def main() -> int:
 
     rc = 0
     replay_path = None
+    reproduce_cmd = (f"VERIF_REPO={env.REPO} " if env._OTHER else "") + f"VERIF_SEED={seed} /venv/bin/python check.py {pid} --tier {a.tier}"
     tail = ""
     if violations:
         v, shrink_info = framework.shrink(mod, pid, a.tier, seed, violations)
         replay_path = framework.write_replay(pid, {"property": pid, "kind": "oracle", "suite": v["suite"],
                                                    "case": v["case"], "detail": v["detail"],
                                                    "impl_eq_model": v["impl_eq_model"], "seed": seed, "tier": a.tier,
-                                                   "reproduce_cmd": f"VERIF_SEED={seed} /venv/bin/python check.py {pid} --tier {a.tier}",
+                                                   "tree": framework.tree_fingerprint(), "reproduce_cmd": reproduce_cmd,
                                                    "note": "cases run in one process in a fixed, seeded order; if --replay of this single case passes, the "
                                                            "failure depends on the history of earlier cases (shared state) and reproduce_cmd replays that history",
                                                    "case_original": v.get("case_original"), "shrink": shrink_info,
@@ -117,7 +124,8 @@ def main() -> int:
         replay_path = framework.write_replay(pid, {
             "property": pid, "kind": "not-shown",
             "no_longer_checks": problems or [f"correspondence suite {first['suite']}"],
-            "first_disagreement": first, "disagreements": len(ctx.disagreements), "seed": seed, "tier": a.tier})
+            "first_disagreement": first, "disagreements": len(ctx.disagreements), "seed": seed, "tier": a.tier,
+            "tree": framework.tree_fingerprint(), "reproduce_cmd": reproduce_cmd})
         rc = 1
         tail = " no-failing-input-found"
 
